@@ -8,7 +8,7 @@ CLAIMED = {
         text='Bounded symbolic model checking of the real code: Directive::detect_from and Directive::add_line are executed '
              'symbolically from rustc MIR for every ASCII line up to the stated byte length (plus non-ASCII layouts) and '
              'compared with the README grammar (G1/G2); z3 decides every path and assertion, cvc5 re-decides every unsat '
-             'verdict, counterexamples are replayed on the natively compiled functions before being reported. Continuation across passes: a page documenting directives inside a write block after a real dependency, through the whole-project harness (props/project.py).',
+             'verdict, counterexamples are replayed on the natively compiled functions before being reported. Continuation across passes: a page documenting directives inside a write block after a real dependency, through the whole-project harness (props/project.py). Round 4: lines with two TXTPP# (fixed tokens + free bytes, 12-15 bytes), prefixes with multi-byte characters (either reading of the padding length, but one).',
         ref='DESIGN.md 5 (C15), 3.3',
         note='bounds: line <= 9 bytes (quick) / 12 (thorough); std callees are contract models; MIR of nightly rustc; '
              'symbolic bytes are ASCII (non-ASCII at enumerated positions)',
@@ -18,7 +18,7 @@ CLAIMED = {
              'format_directive_output, IOCtx, TagState, detect_from, add_line) is executed from rustc MIR on symbolic source files '
              '(line menus with symbolic bytes, LF/CRLF, final newline) inside symbolic file-system and process models and compared '
              'with the reference semantics of DESIGN.md 4.1: verdict, output bytes, temp bytes, command lines. The reference semantics '
-             'is pinned to the repository golden fixtures; counterexamples are replayed with the real binary. Temp and output files of older builds may be lying at the targets (symbolic pre-existing bytes).',
+             'is pinned to the repository golden fixtures; counterexamples are replayed with the real binary. Temp and output files of older builds may be lying at the targets (symbolic pre-existing bytes). Round 4: first lines longer than the reader buffer; write with an empty first argument.',
         ref='DESIGN.md 4, 5 (C01)',
         note='bounds: 0-3 lines (quick) / up to 4 (thorough) over the stated menus; one source per run (composition over files is C02); '
              'FS/process behaviour is a contract model; input domain D1-D12',
@@ -26,7 +26,7 @@ CLAIMED = {
     'C13': dict(
         text='2-safety by self-composition on the real code: `preprocess` is executed symbolically twice (option on / off) on the same '
              'symbolic source and world; outputs must be equal up to one final line ending, temp files and verdict equal, and a source '
-             'ending in a text line must end with / without the line ending; includes on->off histories in Build and --needed mode. Additionally the whole-project harness (props/project.py): the real Txtpp::run with the real preprocess on small multi-file trees through a history of runs, the whole tree compared byte for byte with a project-level reference semantics.',
+             'ending in a text line must end with / without the line ending; includes on->off histories in Build and --needed mode. Additionally the whole-project harness (props/project.py): the real Txtpp::run with the real preprocess on small multi-file trees through a history of runs, the whole tree compared byte for byte with a project-level reference semantics. Round 4: per-step options in project histories (build with the option on, verify with it off and vice versa); the real main() with -n after the sub-command.',
         ref='DESIGN.md 5 (C13)',
         note='bounds as C01; commands deterministic (D8); the -n flag mapping in main.rs is not part of this check',
         technique='symbolic execution of rustc MIR, self-composition, SMT (z3 + cvc5), native replay'),
@@ -42,38 +42,38 @@ CLAIMED = {
         text='Bounded symbolic model checking of the real code: (1) get_line_ending / get_line_ending_from_buf from MIR equal "terminator of '
              'the first line" for every buffer within the bound, including first lines longer than the 8 KiB reader buffer; (2) real '
              '`preprocess` on sources mixing LF/CRLF per line, in included files, command output and stored tag content, and on stale '
-             'generated files: every byte of the output / temp file is checked by the solver against the first-line ending. A transient I/O failure while the source is read must not change the line ending of a run that succeeds (fault injection, replayed natively with an LD_PRELOAD shim).',
+             'generated files: every byte of the output / temp file is checked by the solver against the first-line ending. A transient I/O failure while the source is read must not change the line ending of a run that succeeds (fault injection, replayed natively with an LD_PRELOAD shim). Round 4: sources with different line endings processed one after the other by the same worker (thread-local state is modelled).',
         ref='DESIGN.md 5 (C12)', note='bounds in evidence; D1 (CR only before LF); FS/process contract models',
         technique='symbolic execution of rustc MIR + SMT (z3, cvc5 cross-check), native replay'),
     'C16': dict(
         text='Bounded symbolic model checking of the real code: (a) every source of symbolic lines that G1 classifies as ordinary text is '
              'reproduced line for line by the real `preprocess`; (b) texts made of directive look-alike tokens and symbolic bytes, escaped '
-             'with write, come out exactly, also with a stored tag whose name occurs in the text. Raw sources over {x, CR, LF} (lone CR, CR CR LF) and two tags holding write text that spells the other tag\'s name.',
+             'with write, come out exactly, also with a stored tag whose name occurs in the text. Raw sources over {x, CR, LF} (lone CR, CR CR LF) and two tags holding write text that spells the other tag\'s name. Round 4: first lines longer than the 8 KiB reader buffer in a whole-file run; write whose text starts on the following line.',
         ref='DESIGN.md 5 (C16)', note='bounds in evidence; escaped text has no leading blank on the first line / no trailing blanks',
         technique='symbolic execution of rustc MIR + SMT (z3, cvc5 cross-check), native replay'),
     'C06': dict(
         text='Bounded symbolic model checking of the real code: `preprocess` in Verify mode over symbolic sources and a fully symbolic existing '
              'output (absent / any bytes of every length in the bound): Ok <=> exists and equals the reference build output; the FS-model '
-             'mutation log proves read-only behaviour; first pass in verify mode reports .txtpp-backed dependencies. Additionally the whole-project harness (props/project.py): the real Txtpp::run with the real preprocess on small multi-file trees through a history of runs, the whole tree compared byte for byte with a project-level reference semantics.',
+             'mutation log proves read-only behaviour; first pass in verify mode reports .txtpp-backed dependencies. Additionally the whole-project harness (props/project.py): the real Txtpp::run with the real preprocess on small multi-file trees through a history of runs, the whole tree compared byte for byte with a project-level reference semantics. Round 4: outputs with multi-byte characters against arbitrary existing bytes (exact model of from_utf8_lossy on symbolic bytes); the real main() for the verify sub-command with every flag placement.',
         ref='DESIGN.md 5 (C06)', note='bounds in evidence; FS contract model with 8 KiB BufReader; D1-D12', technique='symbolic execution of rustc MIR over symbolic FS pre-states + SMT (z3, cvc5 cross-check), native replay'),
     'C07': dict(
         text='Bounded symbolic model checking of the real code: histories build->clean, clean, build->clean->clean of the real `preprocess` on '
              'symbolic sources (including erroneous ones) in the FS/process models: generated files removed, decoys and sources intact, no '
-             'Command ever constructed, nothing created, clean returns Ok. Additionally the whole-project harness (props/project.py): the real Txtpp::run with the real preprocess on small multi-file trees through a history of runs, the whole tree compared byte for byte with a project-level reference semantics.',
+             'Command ever constructed, nothing created, clean returns Ok. Additionally the whole-project harness (props/project.py): the real Txtpp::run with the real preprocess on small multi-file trees through a history of runs, the whole tree compared byte for byte with a project-level reference semantics. Round 4: a directory sitting at a temp target; the real main() for the clean sub-command with every flag placement.',
         ref='DESIGN.md 5 (C07)', note='bounds in evidence; name-shape x.txtpp.txtpp is handled in C11', technique='symbolic execution of rustc MIR over symbolic FS pre-states + SMT (z3, cvc5 cross-check), native replay'),
     'C08': dict(
         text='2-safety on the real code: Build from a fully symbolic pre-state of the generated paths (absent / arbitrary bytes incl. invalid '
              'UTF-8) vs Build from a clean tree: equal verdict, output and temp bytes; stale dependency outputs are rebuilt first '
-             '(first pass reports the dependency for all three source-name shapes). Additionally the whole-project harness (props/project.py): the real Txtpp::run with the real preprocess on small multi-file trees through a history of runs, the whole tree compared byte for byte with a project-level reference semantics.',
+             '(first pass reports the dependency for all three source-name shapes). Additionally the whole-project harness (props/project.py): the real Txtpp::run with the real preprocess on small multi-file trees through a history of runs, the whole tree compared byte for byte with a project-level reference semantics. Round 4: --needed on sources whose output is empty or ends in output-less directives.',
         ref='DESIGN.md 5 (C08), 6 (F2 fixed)', note='bounds in evidence; SIGKILL over-approximated by arbitrary pre-states', technique='symbolic execution of rustc MIR over symbolic FS pre-states + SMT (z3, cvc5 cross-check), native replay'),
     'C09': dict(
         text='2-safety on the real code: InMemoryBuild vs Build from the same symbolic pre-state: equal verdict and final bytes; FS-model log: '
-             'an up-to-date output (--needed) / temp file (every mode) is not touched, a stale one is rewritten. Additionally the whole-project harness (props/project.py): the real Txtpp::run with the real preprocess on small multi-file trees through a history of runs, the whole tree compared byte for byte with a project-level reference semantics.',
+             'an up-to-date output (--needed) / temp file (every mode) is not touched, a stale one is rewritten. Additionally the whole-project harness (props/project.py): the real Txtpp::run with the real preprocess on small multi-file trees through a history of runs, the whole tree compared byte for byte with a project-level reference semantics. Round 4: positional writes (a handle opened without truncation) are modelled faithfully.',
         ref='DESIGN.md 5 (C09)', note='bounds in evidence; -N flag mapping checked in C17 cli harness', technique='symbolic execution of rustc MIR over symbolic FS pre-states + SMT (z3, cvc5 cross-check), native replay'),
     'C10': dict(
         text='Monitor on the real code: all four modes, successful and failing sources, optional injected I/O fault, decoy files: every '
              'mutating std::fs call logged by the FS model targets the output or a temp target; verify leaves the output alone; clean '
-             'creates nothing. Additionally the whole-project harness (props/project.py): the real Txtpp::run with the real preprocess on small multi-file trees through a history of runs, the whole tree compared byte for byte with a project-level reference semantics.',
+             'creates nothing. Additionally the whole-project harness (props/project.py): the real Txtpp::run with the real preprocess on small multi-file trees through a history of runs, the whole tree compared byte for byte with a project-level reference semantics. Round 4: prefix-less (erroneous) directives next to a hand-written file in every mode; the library entry point with an empty input list.',
         ref='DESIGN.md 5 (C10)', note='bounds in evidence; input selection / directory scanning is C11', technique='symbolic execution of rustc MIR over symbolic FS pre-states + SMT (z3, cvc5 cross-check), native replay'),
     'C02': dict(
         text='Bounded model checking of the real coordinator: Txtpp::run (Shell::new, resolve_inputs, execute_file/_directory, scan_dir, '
@@ -81,7 +81,7 @@ CLAIMED = {
              'closure and Receiver::try_recv forks over which in-flight task completes next; for every DAG within the bound, every input '
              'selection and every completion order a file is finalised only after all its dependencies, and on success every required '
              'file is final exactly once. `preprocess` is abstracted by a lemma that is itself decided on the real code (first pass '
-             'reports exactly the .txtpp-backed targets, runs nothing after the first, final pass never reports). Additionally the whole-project harness (props/project.py): the real Txtpp::run with the real preprocess on small multi-file trees through a history of runs, the whole tree compared byte for byte with a project-level reference semantics.',
+             'reports exactly the .txtpp-backed targets, runs nothing after the first, final pass never reports). Additionally the whole-project harness (props/project.py): the real Txtpp::run with the real preprocess on small multi-file trees through a history of runs, the whole tree compared byte for byte with a project-level reference semantics. Round 4: dependencies whose fresh output is empty over older non-empty ones; one dependency already complete when the dependency list arrives.',
         ref='DESIGN.md 5 (C02), 3.3 scheduler model',
         note='worker bodies atomic w.r.t. the coordinator; graph / schedule variables are environment fork points (every value feasible, '
              'no solver query needed to split on them), the solver decides the byte-level lemma; bounds <=3 files quick / 4 thorough',
@@ -89,13 +89,13 @@ CLAIMED = {
     'C03': dict(
         text='Same harness with arbitrary digraphs, duplicate/aliased/directory inputs and Clean mode: the coordinator loop exits on every '
              'path (polling an empty channel with nothing in flight is reported as hang), no result stays unread, exactly one first pass '
-             'and at most one final pass per file, nothing unrequested is processed. Termination when a task fails with few threads (bounded channels: a sender blocked on a full channel while the coordinator waits in join is a hang); dependency lists naming a file twice.',
+             'and at most one final pass per file, nothing unrequested is processed. Termination when a task fails with few threads (bounded channels: a sender blocked on a full channel while the coordinator waits in join is a hang); dependency lists naming a file twice. Round 4: sources reached through symbolic links; failing writes to the terminal (progress display) with a clock fork; the library entry point with an empty input list.',
         ref='DESIGN.md 5 (C03)', note='as C02', technique='symbolic execution of rustc MIR with a scheduler model (task completion order, dependency digraph and failures as fork points of the environment), native replay with forced timing'),
     'C04': dict(
         text='(a) coordinator under the scheduler model with failing tasks at any graph position and completion order => run returns Err; '
              '(b) real `preprocess` in all modes with the FS/process models in fault mode (any single std::fs / io call may return Err, '
              'commands may exit non-zero): a fault or prescribed error surfaces as Err, and Ok implies output and temp file complete and '
-             'equal to the reference semantics; verify on tampered outputs fails. Commands may also die by a signal; read/open/create/write failures are replayed natively with an LD_PRELOAD fault injector.',
+             'equal to the reference semantics; verify on tampered outputs fails. Commands may also die by a signal; read/open/create/write failures are replayed natively with an LD_PRELOAD fault injector. Round 4: failing writes to the terminal while a task fails; failing sources behind symbolic links.',
         ref='DESIGN.md 5 (C04)', note='faults are Err returns at the std API, replayed natively with /dev/full where the OS can produce them; '
              'main.rs Err => ExitCode::FAILURE is covered by C17 cli harness', technique='symbolic execution of rustc MIR with fault-injecting FS/process models and scheduler model + SMT (z3, cvc5), native replay'),
     'C05': dict(
@@ -107,7 +107,7 @@ CLAIMED = {
         text='Bounded symbolic model checking of the real code: (1) is_txtpp_file / remove_txtpp / get_txtpp_file from MIR on every file name '
              'over {a . t x p} up to the bound against the naming rules (with a symbolic which-candidates-exist oracle and the round trip); '
              '(2) the real Txtpp::run (resolve_inputs, scan_dir, execute_directory, dedup) on symbolic directory trees and input lists: '
-             'the processed set equals the specified one, missing targets fail, every source is processed once. Additionally the whole-project harness (props/project.py): the real Txtpp::run with the real preprocess on small multi-file trees through a history of runs, the whole tree compared byte for byte with a project-level reference semantics.',
+             'the processed set equals the specified one, missing targets fail, every source is processed once. Additionally the whole-project harness (props/project.py): the real Txtpp::run with the real preprocess on small multi-file trees through a history of runs, the whole tree compared byte for byte with a project-level reference semantics. Round 4: output names with dotted stems looked up by get_txtpp_file; sources reached through symbolic links; empty input list.',
         ref='DESIGN.md 5 (C11)', note='D9: names with empty dot-separated components and x.txtpp.txtpp are outside the domain; no symlinks; '
              'selection runs under one fixed schedule (order independence is C03)',
         technique='symbolic execution of rustc MIR + SMT (z3, cvc5 cross-check), native replay'),
@@ -115,14 +115,14 @@ CLAIMED = {
         text='Bounded symbolic model checking of the real code: preprocess -> execute_directive(Run) -> Shell::run / Shell::new with a recording '
              'process model for sources at depth 0-3 and process cwd equal / ancestor / unrelated to the base directory: program, arguments, '
              'joined command, working directory, TXTPP_FILE, status handling; real main() from the bin MIR on an arbitrary parsed Cli: '
-             'TXTPP_FILE guard, flag mapping (-N, -n, -j, -r, sub-commands), Err => FAILURE. Sources outside the base directory; a shell found through a relative PATH entry (program resolved against the child\'s working directory).',
+             'TXTPP_FILE guard, flag mapping (-N, -n, -j, -r, sub-commands), Err => FAILURE. Sources outside the base directory; a shell found through a relative PATH entry (program resolved against the child\'s working directory). Round 4: TXTPP_FILE of sources reached as dependencies from a sub-directory (project harness with `printenv TXTPP_FILE`); entries named like the shell in the process working directory.',
         ref='DESIGN.md 5 (C17), 6 (F3 fixed)', note='clap parsing itself is outside the claim; std::process is a recording contract model',
         technique='symbolic execution of rustc MIR (lib + bin) + SMT (z3, cvc5 cross-check), native replay through the library entry point'),
     'C18': dict(
         text='Bounded symbolic model checking of the real code: every MIR assert / unreachable / panic call and every std-model precondition is an '
              'error state; leaf functions on raw bytes with non-ASCII characters at every position, the real preprocess on arbitrary byte '
              'files / included files / pre-existing files in all four modes, Txtpp::run with 0..16 threads, and workers outliving a failed '
-             'run; coordinator hangs are C03. Shell::new on arbitrary option bytes; no hang when a task fails with 1-2 threads.',
+             'run; coordinator hangs are C03. Shell::new on arbitrary option bytes; no hang when a task fails with 1-2 threads. Round 4: commands writing more than a pipe holds (spawn / wait / pipe-capacity model); the library entry point with an empty input list.',
         ref='DESIGN.md 5 (C18), 6 (F1 fixed)', note='panics inside std that the contract models do not describe are invisible to the MIR engine; '
              'bounded sizes; no resource exhaustion', technique='symbolic execution of rustc MIR + SMT (z3, cvc5 cross-check), native replay'),
 }
